@@ -326,6 +326,29 @@ def k4b_result(ctx):
                     ctx.finding('K4b', 'calculate_unit/result-post-processed', 'calculate_unit returns %s instead of the accumulated amount: the conversion is no longer the composition of the configured steps' % r[:100], site=st['loc'])
     if n < 2:
         raise AnchorLost('calculate_unit: expected the same-unit and the walked result, found %d Some(..) results' % n)
+    # which amounts skip the walk: only "source unit = target unit" may; a shortcut that depends on the *amount* (small, zero,
+    # negative ..) relabels those amounts instead of converting them and breaks linearity / round trips
+    from ..facts import implied_strs
+    amt = set(b.arg_names.get(i) for i in amount_param)
+    for i in b.normal_blocks:
+        for st in b.blocks[i]['stmts']:
+            if st['k'] == 'assign' and st['lhs']['local'] == 0 and not st['lhs']['proj'] and st['rv'] == 'aggr' and st['adt'].endswith('Option::Some') and not b.in_loop(i):
+                r = render(b.mexpr(st['ops'][0])).lstrip('$')
+                if r not in amt:
+                    continue
+                for (_, d, v) in b.conditions(i):
+                    for x in walk(d):
+                        if x[0] in ('binop', 'call') and any(render(y).lstrip('$') in amt or any(render(z).lstrip('$') in amt for z in walk(y)) for y in (x[2:4] if x[0] == 'binop' else x[2])) and (x[0] == 'binop' and x[1] in ('Lt', 'Le', 'Gt', 'Ge', 'Eq', 'Ne')):
+                            ctx.finding('K4b', 'calculate_unit/shortcut-on-amount', 'calculate_unit hands the amount back unconverted under %s: whether an amount is converted must not depend on the amount' % render(x)[:100], site=st['loc'])
+        t_ = b.blocks[i]['term']
+        if t_['k'] == 'switch' and not b.in_loop(i):
+            d = b.expr(t_['discr'])
+            for x in walk(d):
+                if x[0] == 'binop' and x[1] in ('Lt', 'Le', 'Gt', 'Ge') and any(any(render(z).lstrip('$') in amt for z in walk(y)) for y in (x[2], x[3])):
+                    # a decision on the amount in front of the walk (`if number.abs() < EPSILON || same unit { return .. }`)
+                    rets = [j for j in b.normal_blocks for st2 in b.blocks[j]['stmts'] if st2['k'] == 'assign' and st2['lhs']['local'] == 0 and not st2['lhs']['proj'] and not b.in_loop(j) and b.can_reach(i, j)]
+                    if rets:
+                        ctx.finding('K4b', 'calculate_unit/shortcut-on-amount', 'calculate_unit decides on %s before the walk: whether an amount is converted must not depend on the amount' % render(x)[:100], site=b.blocks[i].get('loc') or b.loc)
     for i in b.normal_blocks:
         for st in b.blocks[i]['stmts']:
             if st['k'] == 'assign' and st['lhs']['local'] in acc and not st['lhs']['proj'] and b.in_loop(i):
